@@ -128,7 +128,7 @@ CHECKS = {
              "the re-evaluator returns: C07_no_extra_evaluation); message = location, description, text, "
              "lines (C07_message_shape); D12b exhibited (C07_speculative_refuted). Tie: correspondence with the guard shapes "
              "first, exception class at the caller, condition text parsed back, evaluated nodes against CPython's; layouts "
-             "of the decorator by enumeration (9 layouts x 3 nestings x description).",
+             "of the decorator by enumeration (10 layouts x 3 nestings x description).",
         note=TB + "Partial: the layout clause is an enumeration of layout templates (source recovery is inspect/asttokens "
              "behaviour, not modelled). Recorded finding D12b (speculative evaluation inside comprehensions).",
         design="DESIGN.md section 6 C07"),
